@@ -107,6 +107,42 @@ CXX_SHAPES = [
 ]
 
 
+# C item kinds the record grammar does not produce: typed constants of typedef'd types, alias chains, typedef'd enums, macros
+C_SHAPES = [
+    ("typed-consts", "typedef unsigned {t}_h; static const {t}_h {t}_NONE = 0; static const {t}_h {t}_MAX = 42; const {t}_h {t}_ext = 7; extern {t}_h {t}_g; "
+                     "struct {t} {{ {t}_h h; }}; {t}_h {t}_mk({t}_h a);"),
+    ("typed-consts-chain", "typedef int {t}_a; typedef {t}_a {t}_b; typedef {t}_b {t}_c; static const {t}_c {t}_K = -5; static const {t}_a {t}_K2 = 6; struct {t} {{ {t}_c c; {t}_b b[2]; }};"),
+    ("typed-consts-float", "typedef float {t}_r; typedef double {t}_d; static const {t}_r {t}_HALF = 0.5f; static const {t}_d {t}_PI = 3.25; struct {t} {{ {t}_r r; {t}_d d; }};"),
+    ("typed-consts-char-bool", "typedef char {t}_ch; typedef _Bool {t}_fl; typedef unsigned char {t}_u8; static const {t}_ch {t}_C = 'x'; static const {t}_fl {t}_T = 1; "
+                               "static const {t}_u8 {t}_B = 200; struct {t} {{ {t}_ch c; {t}_fl f; {t}_u8 b; }};"),
+    ("enum-typedef-const", "enum {t}_col {{ {t}_RED, {t}_GREEN = 5 }}; typedef enum {t}_col {t}_col_t; static const {t}_col_t {t}_DEF = {t}_GREEN; struct {t} {{ {t}_col_t c; enum {t}_col d; }};"),
+    ("typedef-pointers", "typedef const char *{t}_name; typedef void *{t}_hnd; typedef int (*{t}_cb)(int); typedef int {t}_fn(int); typedef int {t}_arr[3]; "
+                         "struct {t} {{ {t}_name n; {t}_hnd h; {t}_cb cb; {t}_fn *f; {t}_arr a; }}; {t}_name {t}_get({t}_hnd h, {t}_cb c, {t}_arr a);"),
+    ("typedef-of-struct", "struct {t}_s {{ int x; }}; typedef struct {t}_s {t}_st; typedef {t}_st *{t}_sp; typedef struct {{ int y; }} {t}_anon; static const int {t}_N = 3; "
+                          "struct {t} {{ {t}_st a; {t}_sp p; {t}_anon q; }};"),
+    ("macro-consts", "typedef unsigned {t}_h;\n#define {t}_M1 5\n#define {t}_M2 (-7)\n#define {t}_M3 2.5\n#define {t}_M4 \"s\"\n#define {t}_M5 'c'\n#define {t}_M6 ({t}_M1 + 1)\nstruct {t} {{ {t}_h h; }};"),
+    ("typedef-same-as-tag", "typedef struct {t} {{ int v; }} {t}; typedef union {t}_u {{ int i; float f; }} {t}_u; typedef enum {t}_e {{ {t}_E0 }} {t}_e; "
+                            "static const {t}_e {t}_ec = {t}_E0; struct {t}_holder {{ {t} a; {t}_u b; {t}_e c; }};"),
+    ("int-typedefs-stdint", "typedef signed char {t}_i8; typedef unsigned short {t}_u16; typedef long long {t}_i64; typedef unsigned long {t}_sz; static const {t}_i8 {t}_A = -1; "
+                            "static const {t}_u16 {t}_Bv = 65535; static const {t}_i64 {t}_Cv = -9000000000LL; static const {t}_sz {t}_Dv = 18000000000000000000UL; struct {t} {{ {t}_sz s; }};"),
+]
+
+
+def c_shapes():
+    return [CxxCase(f"K{9500 + i}", src.format(t=f"K{9500 + i}"), f"c-shape({name})") for i, (name, src) in enumerate(C_SHAPES)]
+
+
+# option rows that only make sense for the item-kind shapes (patterns naming the shapes' typedefs)
+SHAPE_OPTIONS = [
+    ("nta-regex", ["--new-type-alias", "K\\d+_(h|c|r|ch|col_t|name|st|i8|sz)"], "2021"),
+    ("ntad-regex", ["--new-type-alias-deref", "K\\d+_(h|c|r|ch|col_t|name|st|i8|sz)"], "2021"),
+    ("normal-over-newtype", ["--default-alias-style", "new_type", "--normal-alias", "K\\d+_(h|c|r)"], "2021"),
+    ("deref-over-newtype", ["--default-alias-style", "new_type", "--new-type-alias-deref", "K\\d+_(h|d|fl)"], "2021"),
+    ("newtype-derives", ["--default-alias-style", "new_type", "--with-derive-default", "--with-derive-hash", "--with-derive-partialeq", "--with-derive-eq", "--with-derive-ord", "--with-derive-partialord"], "2021"),
+    ("deref-no-copy", ["--default-alias-style", "new_type_deref", "--no-derive-copy", "--no-derive-debug"], "2021"),
+]
+
+
 def cxx_shapes():
     return [CxxCase(f"K{9000 + i}", src.format(t=f"K{9000 + i}"), f"cxx-shape({name})") for i, (name, src) in enumerate(CXX_SHAPES)]
 
@@ -114,7 +150,7 @@ def cxx_shapes():
 def structure_class(c):
     """Closed-form structural class of a record (used to attribute known unrepresentable shapes)."""
     if not hasattr(c, "atoms"):
-        return c.cid.split(" ")[0] if c.cid.startswith("cxx-shape") else "cxx-names"
+        return c.cid.split(" ")[0] if c.cid.startswith(("cxx-shape", "c-shape")) else "cxx-names"
     packed = c.rattr in ("packed", "pk_al4", "pp1", "pp2", "pp4", "pp8") or c.mattr == "mpk"
     aligned = c.rattr in ("al2", "al4", "al8", "al16", "al64", "pk_al4") or c.mattr in ("mal8", "mal16", "mal64")
     over = any(k in ("nestal", "ldouble", "i128") for k in c.atoms)
@@ -148,24 +184,33 @@ def run(ck, only=None):
         pick = {k for i, k in enumerate(keys) if (i + ck.seed) % 6 == 1}
         recs = [c for c in recs if len(c.atoms) == 1 or c.atoms[0] in pick]
         ck.cap("quick tier: 2-member records whose first member is in a rotated sixth of the atom alphabet; a rotated third of the option rows on a twelfth of them")
-    fam_c = recs
+    fam_c = recs + c_shapes()
     fam_cpp = cxx_family() + cxx_shapes()
+    if os.environ.get("VERIF_C01_SHAPES_ONLY"):   # triage aid: only the item-kind shapes, every option row
+        fam_c, fam_cpp = c_shapes(), cxx_shapes()
     if only:
         fam_c = [c for c in fam_c if c.cid == only.get("cid")]
         fam_cpp = [c for c in fam_cpp if c.cid == only.get("cid")]
-    opts = OPTIONS if not only else [o for o in OPTIONS if o[0] == only.get("opt")]
+    opts = OPTIONS if not only else [o for o in OPTIONS + SHAPE_OPTIONS if o[0] == only.get("opt")]
     if ck.tier == "quick" and not only:
         opts = [o for k, o in enumerate(OPTIONS) if k <= 1 or (k + ck.seed) % 3 == 0]
+    if not only:
+        opts = opts + SHAPE_OPTIONS
+    shape_rows = {o[0] for o in SHAPE_OPTIONS}
     failed_default = set()
     for oname, flags, edition in opts:
         for lang, fam in (("c", fam_c), ("cpp", fam_cpp)):
             if not fam:
                 continue
             cases = fam
+            if oname in shape_rows:
+                if lang != "c":
+                    continue
+                fam = [c for c in fam if c.cid.startswith("c-shape")]
             if oname != "default":
                 cases = [c for c in fam if c.cid not in failed_default]
                 if ck.tier == "quick" and lang == "c":
-                    cases = [c for k, c in enumerate(cases) if k % 12 == 0]
+                    cases = [c for k, c in enumerate(cases) if k % 12 == 0 or c.cid.startswith("c-shape")]
                 elif ck.tier == "quick":
                     cases = [c for k, c in enumerate(cases) if k % 3 == 0 or c.cid.startswith("cxx-shape")]
             batches = [(f"{lang}_{oname.replace('.', '_')}_{i // BATCH}", cases[i:i + BATCH]) for i in range(0, len(cases), BATCH)]
@@ -184,7 +229,7 @@ def run(ck, only=None):
                                  {"cid": c.cid, "opt": oname, "predicate": f"{sig}|{structure_class(c)}|{oname}", "source": c.source(),
                                   "why": " | ".join(msgs)[:600]})
     ck.sample({"record": fam_c[len(fam_c) // 2].cid if fam_c else None, "cxx": fam_cpp[3].cid if len(fam_cpp) > 3 else None})
-    if not only or only.get("header"):
+    if (not only or only.get("header")) and not os.environ.get("VERIF_C01_SHAPES_ONLY"):
         repo_headers(ck, only)
     ck.extra["records"] = len(fam_c)
     ck.extra["cxx_cases"] = len(fam_cpp)
@@ -235,7 +280,10 @@ def repo_headers(ck, only):
         text = r["text"]
         pre = "" if text.lstrip().startswith("#![") else "#![allow(warnings)]\n"
         open(p, "w").write(pre + text)
-        ok, err = common.rustc_meta(p, edition=ed)
+        # a header whose own flags put a user attribute `cfg(test)` on items is compiled in that configuration (the field the
+        # layout assertion names exists only there); everything else is compiled as a plain library
+        extra = ["--cfg", "test"] if any("cfg(test)" in a for a in args) or "cfg(test)" in open(os.path.join(common.HEADERS, bn), errors="replace").read() else None
+        ok, err = common.rustc_meta(p, edition=ed, extra=extra)
         return bn, ok, err
 
     for bn, ok, err in common.pmap(comp, list(meta)):
